@@ -17,6 +17,8 @@
 -/
 import ApiFu.C02.Lemmas
 import ApiFu.C02.Data
+import ApiFu.C02.Term
+import ApiFu.C02.Errors
 
 namespace ApiFu.C02
 
@@ -136,6 +138,40 @@ theorem no_blank_key (rq : Request) (v : Val) (h : (execute rq).1 = .done (.ok v
   have := writesF_key_aux.2.1 rq.fields [] 0 _ h2
   simpa [hk'] using this
 
+/-- The error list `run` reports is `executor.Errors` as recorded in the log. -/
+theorem run_errors (rq : Request) : (run rq).errors = errorsOf (execute rq).2.log := by
+  unfold run
+  rcases execute rq with ⟨w, S⟩
+  cases w with
+  | done r => cases r <;> rfl
+  | stuck => rfl
+  | outOfFuel => rfl
+
+/-- **errors_are_field_errors** (`errors ⊆ Ref.all`). For every request, async subset and schedule,
+    every error in the response is one of the field errors the resolver outcomes allow
+    (`Spec.errsF`: resolver errors, completion errors, null for non-null) — with the right path. -/
+theorem errors_are_field_errors (rq : Request) : ∀ e ∈ (run rq).errors, e ∈ Spec.errsF rq.fields [] := by
+  obtain ⟨r, h⟩ := execute_terminates rq
+  intro e he
+  rw [run_errors] at he
+  have := request_errors_count rq r h e
+  have hpos := List.count_pos_iff.mpr he
+  exact List.count_pos_iff.mp (by omega)
+
+/-- **no_duplicate_error.** For every request with distinct response keys, every async subset and
+    every schedule, no (path, message) occurs twice in the error list (F-02b appended a caught
+    error again in every later idle round). Proved by counting: for each error, the number of
+    times it has been reported plus the number of times the pending futures may still report it
+    never increases, and starts at most at its multiplicity among the request's field errors,
+    which is one. -/
+theorem no_duplicate_error (rq : Request) (hd : Field.distinctKeysL rq.fields = true) : (run rq).errors.Nodup := by
+  obtain ⟨r, h⟩ := execute_terminates rq
+  rw [run_errors]
+  refine nodup_of_count_le_one (fun e => ?_)
+  have := request_errors_count rq r h e
+  have := count_le_one_of_nodup (errsF_nodup rq.fields [] hd) e
+  omega
+
 /-- **rounds_le_promises.** Whenever execution returns, the number of idle rounds is at most the
     number of promises created: every round the model lets happen fulfils at least one outstanding
     promise (`idleRound_spec`), for every schedule. -/
@@ -146,6 +182,31 @@ theorem rounds_le_promises (rq : Request) (r : Res) (h : (execute rq).1 = .done 
     taken: the model's explicit crash flag stays down. -/
 theorem no_crash_branch (rq : Request) (r : Res) (h : (execute rq).1 = .done r) :
     (execute rq).2.crash = false := (execute_spec rq r h).2.2
+
+/-- **Termination (wait never hangs).** For every request, every async subset and every schedule
+    (any list of masks: the model's idle handler fulfils the promises a mask selects, the first
+    outstanding one if it selects none, all of them once the list is used up — every round fulfils a
+    non-empty subset of the outstanding promises), execution returns a result. In particular the
+    idle handler is never called with nothing left to fulfil (`WaitResult.stuck`), and the number of
+    idle rounds never exceeds the fuel — one more than the number of field invocations. -/
+theorem execution_terminates (rq : Request) : ∃ r, (execute rq).1 = .done r := execute_terminates rq
+
+/-- **The response is independent of sync/async resolution and promise order (data).**
+    Unconditional form of `async_eq_sync`: for every request with distinct response keys, every
+    async subset, every schedule and every schedule of the all-synchronous counterpart, the data of
+    both runs is the same text, namely `Spec.data rq`. -/
+theorem response_data_independent (rq : Request) (sched' : List Nat) (hd : Field.distinctKeysL rq.fields = true) :
+    (run rq).data = Spec.data rq ∧ (run (rq.allSync sched')).data = Spec.data rq := by
+  obtain ⟨r, h⟩ := execute_terminates rq
+  obtain ⟨r', h'⟩ := execute_terminates (rq.allSync sched')
+  refine ⟨request_data rq hd r h, ?_⟩
+  rw [request_data (rq.allSync sched') (by
+    simp only [Request.allSync]; rw [(distinctKeys_allSync_aux.2.1 rq.fields).1]; exact hd) r' h', spec_data_allSync]
+
+/-- Unconditional form of `rounds_le_promises`. -/
+theorem idle_rounds_le_promises (rq : Request) : (execute rq).2.rounds ≤ (execute rq).2.nextId := by
+  obtain ⟨r, h⟩ := execute_terminates rq
+  exact rounds_le_promises rq r h
 
 /-! Non-vacuity: a request for which execution returns under a two-round schedule, with a promise
     failing beneath a non-null field inside a nullable object (the F-02a shape). -/
